@@ -323,6 +323,12 @@ type lvFull struct {
 	Z int64            `json:"z"`
 }
 
+// LVShadow: embedded into a target of driveLongValues
+type LVShadow struct {
+	A int64 `json:"a"`
+	Q int64 `json:"q"`
+}
+
 func driveLongValues(c *driverCtx, prop string) {
 	if prop == "C03" {
 		driveOutOfWidth(c, "C03") // a stored value outside the destination's width is an error wherever it sits
@@ -352,6 +358,19 @@ func driveLongValues(c *driverCtx, prop string) {
 			Z int64            `json:"z"`
 		}{}),
 		reflect.TypeOf(struct{}{}),
+		// an embedded struct added after the fields, one of its fields carrying a kept field's name: embedded structs are
+		// not promoted, the field declared in the target itself keeps its value
+		reflect.TypeOf(struct {
+			A int64 `json:"a"`
+			Z int64 `json:"z"`
+			LVShadow
+		}{}),
+		// tags with several options select by the name before the first comma
+		reflect.TypeOf(struct {
+			A int64  `json:"a,omitempty,string"`
+			S string `json:"s,string,omitempty"`
+			Z int64  `json:"z,omitempty,omitzero"`
+		}{}),
 	}
 	text := func(n int) []byte {
 		b := make([]byte, n)
@@ -401,6 +420,48 @@ func driveLongValues(c *driverCtx, prop string) {
 		}
 	}
 	c.rec.Realised("len-3-bytes-values")
+	if prop == "C03" {
+		// maps whose values are unions of null and several integer types (no writer of this library produces them),
+		// null entries after non-null ones, within a record and from one record to the next
+		const uj = `{"type":"record","name":"MU","fields":[{"name":"m","type":{"type":"map","values":["null","int","long"]}},{"name":"z","type":"long"}]}`
+		if un, err := schemaNodeFromJSON([]byte(uj)); err == nil {
+			entry := func(b []byte, key string, branch int, v int64) []byte {
+				b = append(appendVar(b, int64(len(key))), key...)
+				b = appendVar(b, int64(branch))
+				if branch != 0 {
+					b = appendVar(b, v)
+				}
+				return b
+			}
+			var raw []byte
+			var recs []any
+			for k, ents := range [][][3]int64{{{1, 1, 5}, {2, 0, 0}, {3, 2, -7}, {4, 0, 0}}, {{5, 0, 0}, {6, 2, 1 << 40}}, {{7, 0, 0}}, {}} {
+				var b []byte
+				if len(ents) > 0 {
+					b = appendVar(b, int64(len(ents)))
+					for _, e := range ents {
+						b = entry(b, fmt.Sprint("k", e[0]), int(e[1]), e[2])
+					}
+				}
+				b = appendVar(b, 0)
+				b = appendVar(b, int64(100+k))
+				recs = append(recs, byteList(b))
+				raw = append(raw, b...)
+			}
+			t := reflect.TypeOf(struct {
+				M map[string]int64 `json:"m"`
+				Z int64            `json:"z"`
+			}{})
+			for ci, codec := range codecs3 {
+				file := buildContainer([]byte(uj), codec, true, []byte("0123456789abcdef"), [][2]any{{len(recs), raw}})
+				r := readBack(t, file, readerKinds[ci%len(readerKinds)], ci%2 == 0, -1, nil)
+				c.rec.NewCase()
+				c.rec.Emit(fmt.Sprintf("%s|map-of-integer-unions|%s", prop, codec), map[string]any{
+					"op": "rand_read", "mode": prop, "schema": un, "records": recs, "target": projectType(t), "codec": codec,
+					"delivered": orEmpty(r.delivered), "recheck": orEmpty(r.recheck), "err": errString(r.err), "panic": r.panicked})
+			}
+		}
+	}
 	{
 		// attributes a reader may ignore -- aliases among them -- do not decide which target field a file field goes to:
 		// a file field the target has no field for (by its own name) is skipped
